@@ -450,6 +450,7 @@ def run(ctx):
     assumptions = ["nan/inf/underscore numerals (Python float extensions), more than four "
                    "viewBox tokens and unknown keywords are outside the quantifier",
                    "comparison through the mapping at the viewBox corners, relative 1e-9"]
+    coverage["rule"] += ('; the SVG number grammar spelt out (3 signs x 6 mantissa forms x 13 exponent forms) in each of the four viewBox positions x 4 preserveAspectRatio values')
     return {"part": part, "coverage": coverage, "assumptions": assumptions}
 
 
